@@ -434,11 +434,9 @@ theorem buildMatrix_runs (s : Spec) (fr : Frame) (drop : List Nat) (cache : Cach
     | error e => simp [he] at h
     | ok fins =>
       simp only [he] at h
-      split at h
-      · simp at h
-      · simp only [Except.ok.injEq] at h
-        obtain ⟨runs, h1, h2, h3, h4, h5⟩ := gen_enf_runs s fr drop cache _ _ _ _ hg he
-        refine ⟨runs, h1, h2, ?_, ?_, ?_, ?_⟩ <;> subst h <;> simp [h3, h4, h5, List.flatMap_def, List.map_map, Function.comp_def]
+      simp only [Except.ok.injEq] at h
+      obtain ⟨runs, h1, h2, h3, h4, h5⟩ := gen_enf_runs s fr drop cache _ _ _ _ hg he
+      refine ⟨runs, h1, h2, ?_, ?_, ?_, ?_⟩ <;> subst h <;> simp [h3, h4, h5, List.flatMap_def, List.map_map, Function.comp_def]
 
 /-- a successful `buildAll` pairs every spec with its result -/
 theorem buildAll_zip (fr : Frame) (drop : List Nat) (cache : Cache) :
